@@ -1,3 +1,4 @@
+import re
 """Anchors shared by several properties. Every anchor is looked up in the facts of
 the current tree; a missing one raises AnchorMissing (the check fails closed)."""
 from axvlib import core
@@ -68,10 +69,14 @@ def callers_of(p, fid, allowed=None):
 def sites(p, fid, within=None):
     """call sites whose resolved callee is fid"""
     out = []
-    fns = [p.fns[within]] if within else p.fns.values()
+    if within:
+        fns = [p.fns[within]]
+    elif p.inline_mode:
+        # views: a transparent helper's call sites are seen, inlined, in the views of the functions that call it
+        fns = [p.fns[k] for k in p.fns if not p.transparent(p.raw_fns[k].root or k)]
+    else:
+        fns = p.fns.values()
     for f in fns:
-        if p.inline_mode and not within and p.transparent(f.root or f.id):
-            continue        # its call sites are seen, inlined, in the views of the functions that call it
         for c in f.calls():
             if c.callee == fid or fid in p.targets(c):
                 out.append(c)
@@ -104,36 +109,93 @@ UNWRAPS = {
 }
 
 
+ATTRIBUTED = {}
+
+
 def panic_sites(p, fns):
     """explicit panic constructs in the given functions (and their closures):
-    returns {(fn id, kind): [call, ...]} with kind in Option::expect, Result::unwrap, panic!, ..."""
+    returns {(fn id, kind): [call, ...]} with kind in Option::expect, Result::unwrap, panic!, ...
+    Sites are attributed to the *root* function (a closure counts for the function that contains it). In inline mode the
+    sites of a transparent helper (axvlib.core.Program.transparent) count for the functions that call it, and the helper
+    has no entry of its own: moving an `expect` into an extracted helper does not change any count."""
     out = {}
-    todo = list(fns)
-    seen = set()
-    while todo:
-        fid = todo.pop()
-        if fid in seen or fid not in p.fns:
+    raw = p.raw_fns
+
+    def own(fid):
+        """sites in fid and its closures (raw view)"""
+        res = []
+        todo, seen = [fid], set()
+        while todo:
+            x = todo.pop()
+            if x in seen or x not in raw:
+                continue
+            seen.add(x)
+            todo.extend(p.closure_children.get(x, ()))
+            f = raw[x]
+            for c in f.calls():
+                kind = UNWRAPS.get(c.callee)
+                if kind is None and core.is_panic_fn(c.callee):
+                    if f.blocks[c.bb]["cleanup"]:
+                        continue
+                    kind = "panic!"
+                if kind:
+                    res.append((kind, c))
+        return res
+
+    def helpers(fid, acc, depth=0):
+        """transparent helpers called (directly, transitively through transparent helpers) from fid or its closures"""
+        if depth > 3:
+            return
+        todo, seen = [fid], set()
+        while todo:
+            x = todo.pop()
+            if x in seen or x not in raw:
+                continue
+            seen.add(x)
+            todo.extend(p.closure_children.get(x, ()))
+            for c in raw[x].calls():
+                t = c.term["fn"].get("res")
+                if t in raw and t not in acc and t != fid and t in scope and p.transparent(t):
+                    acc.add(t)
+                    helpers(t, acc, depth + 1)
+
+    scope = {(raw[x].root or x) for x in fns if x in raw}
+    roots = []
+    for fid in fns:
+        if fid not in raw:
             continue
-        seen.add(fid)
-        todo.extend(p.closure_children.get(fid, ()))
-        f = p.fns[fid]
-        for c in f.calls():
-            kind = UNWRAPS.get(c.callee)
-            if kind is None and core.is_panic_fn(c.callee):
-                if f.blocks[c.bb]["cleanup"]:
-                    continue
-                kind = "panic!"
-            if kind:
-                out.setdefault((fid, kind), []).append(c)
+        r = raw[fid].root or fid
+        if r not in roots:
+            roots.append(r)
+    for r in roots:
+        if p.inline_mode and p.transparent(r):
+            continue
+        sites = own(r)
+        if p.inline_mode:
+            hs = set()
+            helpers(r, hs)
+            ATTRIBUTED[r] = hs
+            for h in sorted(hs):
+                sites += own(h)
+        for kind, c in sites:
+            out.setdefault((r, kind), []).append(c)
     return out
 
 
 def check_panic_budget(cx, rid, p, fns, budget, what):
-    """budget: {(fn id, kind): max count} — the sites confirmed by hand. More sites than budgeted
-    in a function (or a function/kind not in the table) is reported; fewer is fine."""
+    """budget: {(fn id, kind): max count} — the sites confirmed by hand (entries of closures count for their root function).
+    More sites than budgeted in a function (or a function/kind not in the table) is reported; fewer is fine."""
     sites = panic_sites(p, fns)
+    rooted = {}
+    for (fid, kind), n in budget.items():
+        r = (p.raw_fns[fid].root or fid) if fid in p.raw_fns else fid
+        r = re.sub(r"(::\{closure#\d+\})+$", "", r)       # a closure that no longer exists still names its function
+        rooted[(r, kind)] = rooted.get((r, kind), 0) + n
     for (fid, kind), cs in sorted(sites.items()):
-        allowed = budget.get((fid, kind), 0)
+        allowed = rooted.get((fid, kind), 0)
+        if p.inline_mode:
+            # the budget of a helper whose sites are counted here comes along with them
+            allowed += sum(rooted.get((h, kind), 0) for h in ATTRIBUTED.get(fid, ()))
         cx.verdict(len(cs) <= allowed, rid, "%s:%s" % (fid, kind), cs[0].where(),
                    "%d site(s), %d justified: %s" % (len(cs), allowed, what),
                    "%d %s site(s) in %s, only %d justified (%s): a new panic on %s" % (
